@@ -9,7 +9,7 @@ Proof. induction a as [|e a IH]; [reflexivity|]. destruct e; cbn; now rewrite ?I
 Lemma run_hook_fmt cfg st h k st' r ev : run_hook cfg st h k = (st', r, ev) -> fmt_of ev = [].
 Proof.
   unfold run_hook. destruct (c_dry cfg || negb (c_hooks cfg h)); [intros E; inversion E; reflexivity|].
-  destruct (c_faults cfg h k); intros E; inversion E; reflexivity.
+  destruct (c_faults cfg h k), (c_aborts cfg h k); intros E; inversion E; reflexivity.
 Qed.
 
 Lemma run_tag_hooks_fmt cfg h tags : forall st st' r ev,
